@@ -56,6 +56,8 @@ type WSim struct {
 	Stats map[string]int
 	// AfterOp is called after every operation with its name, the acting wallet and the error (if any).
 	AfterOp func(op string, wn *WalletNode, err error)
+	// BeforeOp is called before reclaim / remove-spent (monitors record mint-side states).
+	BeforeOp func(op string, wn *WalletNode)
 	// LostTokens: value of tokens the harness deliberately dropped (none by default).
 	inAfter bool
 }
@@ -242,6 +244,9 @@ func (s *WSim) OpCheckMelt(rec *MeltRec) error {
 }
 
 func (s *WSim) OpReclaim(wn *WalletNode) (uint64, error) {
+	if s.BeforeOp != nil {
+		s.BeforeOp("reclaim", wn)
+	}
 	got, err := wn.Reclaim()
 	s.logf("%s reclaim -> %d %s", wn.Name, got, errS(err))
 	if err == nil {
@@ -260,6 +265,9 @@ func (s *WSim) OpReclaim(wn *WalletNode) (uint64, error) {
 }
 
 func (s *WSim) OpRemoveSpent(wn *WalletNode) error {
+	if s.BeforeOp != nil {
+		s.BeforeOp("remove-spent", wn)
+	}
 	err := wn.RemoveSpent()
 	s.logf("%s remove-spent -> %s", wn.Name, errS(err))
 	s.done("remove-spent", wn, err)
@@ -370,11 +378,11 @@ func (s *WSim) RandomOp(cfg Cfg) {
 			s.W.LN.Resolve(s.W.MintByURL(rec.MintURL).Env.Name, rec.Hash, s.Rng.Intn(2) == 0)
 		}
 		s.OpCheckMelt(rec)
-	case roll < 86 && cfg.Reclaim:
+	case roll < 85 && cfg.Reclaim:
 		s.OpReclaim(wn)
-	case roll < 90 && cfg.RemoveSpent:
+	case roll < 88 && cfg.RemoveSpent:
 		s.OpRemoveSpent(wn)
-	case roll < 94 && cfg.MintSwap && len(s.W.Mints) > 1:
+	case roll < 95 && cfg.MintSwap && len(s.W.Mints) > 1:
 		ts := s.trusted(wn)
 		if len(ts) < 2 {
 			// trust the other mint by funding there
